@@ -172,6 +172,14 @@ def triggers_of(program: dict, facts: dict[str, dict]) -> dict[str, list[str]]:
                 "mutate" in f.get("right_chain", {}).get("verbs", []) or
                 (st.get("how") == "full" and "mutate" in f.get("chain", {}).get("verbs", []))):
             hit("D52", sid)
+        if op in ("mutate", "summarize") and (ops & {"sum", "cum_sum"}):
+            found = []
+            _walk(st, lambda d: found.append(1) if d.get("fn") in ("sum", "cum_sum") and d.get("args") and isinstance(d["args"][0], dict)
+                  and ("fn" in d["args"][0] or "case" in d["args"][0]) else None)
+            if found:
+                hit("D53", sid)
+        if "str_slice" in ops:
+            hit("D54", sid)
         if op == "group_by" and st.get("add") and f.get("grouped"):
             hit("D43", sid)
         if op == "ungroup" and f.get("grouped") and f.get("summarized_group"):
